@@ -18,7 +18,7 @@ W = f"{ROOT}/repo"
 H = f"{ROOT}/h"
 CAT = f"{ROOT}/catalogue.jsonl"
 TOOL = "/verif/selftest/schemata/target/release/hcschemata"
-ENV = dict(os.environ, CARGO_NET_OFFLINE="true")
+ENV = dict(os.environ, CARGO_NET_OFFLINE="true", HCVERIF_HANG_SECS=os.environ.get("HCVERIF_HANG_SECS", "60"))
 
 FILE_CHECKS = [
     ("bitfield/", ["C01", "C08", "C06", "C03"]),
